@@ -188,6 +188,20 @@ def directed_all_empty(cw, sb, rng):
         m['enabled'] = False
     return ['directed:all_empty']
 
+def directed_adopt(cw, sb, rng):
+    """the deploy adopts files the user wrote: new outputs (a prompt added to the configuration, the files of modules
+    switched on again) land on paths where files of the user's own already are; an interruption between the backup and
+    the write must leave the user's file (or the new one) in place"""
+    before = {d['path'] for d in cw.desired(None)}
+    for _ in range(rng.randrange(1, 3)): cw.add_prompt()
+    for m in cw.modules:
+        if not m['enabled']: m['enabled'] = True
+    n = 0
+    for d in cw.desired(None):
+        if d['path'] not in before and not os.path.lexists(d['path']):
+            ds.world.write(d['path'], b'written by the user before agentpack knew this path\n'); n += 1
+    return ['directed:adopt', 'adopted:%d' % n]
+
 def first_deploy_all_on(cw):
     cw.opts = {k: True for k in cw.opts}
     if not any(m['type'] == 'instructions' for m in cw.modules):
@@ -460,6 +474,8 @@ def run(ctx):
         run_scenario(ctx, 4000 + i, ['abort'], None, cases, directed=directed_legacy_used)      # regression for fix 800fc7e
     for i in range(2 if quick else 6):
         run_scenario(ctx, 5000 + i, ['abort'], None, cases, directed=directed_no_manifests_empty)   # witness for K7f
+    for i in range(2 if quick else 12):
+        run_scenario(ctx, 6000 + i, ['abort'], 24 if quick else None, cases, directed=directed_adopt)
     for c in ctx.corr('crash', HEADER, 'check_crash', 'crash_case', cases, shard_chars=40000):
         ctx.violation('model and implementation disagree on the sequence of mutating operations / a crash-prefix disk', c, no_input=True)
     rcases = []
